@@ -352,6 +352,15 @@ class Interp:
         ords = _loop_ordinals(fn.node)
         o = ords.get(id(node))
         spec = specs.get(o) if specs is not None else None
+        if specs and not _check_loop_shape(fn):
+            # the function no longer has the loops the contracts were written for: a contract is applied only to a loop whose
+            # header is literally the recorded one (and unique); other loops are unrolled (decides loop-free rewrites and loops
+            # over concrete data, is undecided otherwise)
+            spec = None
+            head = ast.unparse(node.test) if isinstance(node, ast.While) else ast.unparse(node.target) + " in " + ast.unparse(node.iter)
+            cands = [i for i, kh in enumerate(fn._shape_recorded) if kh[1] == head and kh[0] == type(node).__name__]
+            if len(cands) == 1:
+                spec = specs.get(cands[0])
         self._default_spec = False
         if spec is None:
             dl = self.config.get("default_loop")
@@ -383,7 +392,8 @@ class Interp:
                     self.path.fail(f"{self.target}#termination:loop-runs-more-than-{self.max_unroll}-iterations-on-a-finite-heap@{anchor(node.test)}",
                                    detail="the loop does not terminate on this heap")
                     raise PathEnd()
-                self.unsupported(f"while loop without invariant exceeds {self.max_unroll} iterations", node.test)
+                hint = getattr(frame.func, "_shape_ok", True) if frame.func is not None else True
+                self.unsupported(f"while loop without invariant exceeds {self.max_unroll} iterations" + ("" if hint is True else "; " + str(hint)), node.test)
 
     def s_For(self, node, frame):
         spec, o = self.loop_spec(node, frame)
@@ -2033,6 +2043,41 @@ def _target_names(t):
 
 
 _ORD_CACHE = {}
+
+
+_SHAPES = None
+
+
+def _check_loop_shape(fn):
+    """loop contracts are keyed by ordinal: they only mean something while the function still has the loops they were
+    written for (contracts/loop_shapes.json, recorded by tools/record_loop_shapes.py)"""
+    global _SHAPES
+    if _SHAPES is None:
+        import json
+        import os
+        path = os.path.join(os.path.dirname(os.path.dirname(os.path.abspath(__file__))), "contracts", "loop_shapes.json")
+        _SHAPES = json.load(open(path)) if os.path.exists(path) else {}
+    if getattr(fn, "_shape_ok", None) is not None:
+        return fn._shape_ok is True
+    key = fn.module.name.split(".")[-1] + ".py::" + fn.qualname
+    want = _SHAPES.get(key)
+    kinds = []
+
+    def walk(n):
+        for c in ast.iter_child_nodes(n):
+            if isinstance(c, (ast.For, ast.While)):
+                kinds.append(type(c).__name__)
+            if not isinstance(c, (ast.FunctionDef, ast.Lambda, ast.ClassDef)):
+                walk(c)
+    walk(fn.node)
+    fn._shape_recorded = want or []
+    want = [kh[0] for kh in want] if want is not None else None
+    if want is not None and want != kinds:
+        fn._shape_ok = (f"the loops of {key} changed since its loop contracts were written (recorded {want}, found {kinds}): "
+                        f"the contracts are keyed by loop ordinal and do not fit this code")
+        return False
+    fn._shape_ok = True
+    return True
 
 
 def _loop_ordinals(fnode):
